@@ -24,7 +24,8 @@ func init() {
 			"NOT decided: effects of astdiff / line merging on layout; go/printer; whether elided statements inside a rebuilt container are syntactically unchanged (they are the same node pointers)." +
 			" R10 the slot written is the slot matched; R11 the written file holds only the printed tree." +
 			" R1 also: reflect writes through a helper are checked at its call sites; R12 matching writes no shared memory." +
-			" R13 the bytes kept for a file are not a window into a buffer that is rewound and filled again (same rule as C03-R12).",
+			" R13 the bytes kept for a file are not a window into a buffer that is rewound and filled again (same rule as C03-R12)." +
+			" R11 also: every emitted byte slice is the go/format + imports.Process result (no text-level pass of gopatch's own).",
 		Trusted:     commonTrusted,
 		Assumptions: commonAssumptions,
 	})
